@@ -12,6 +12,7 @@ inline void advance_s(long long s) { advance_ns(s * 1'000'000'000LL); }
 inline void advance_ms(long long ms) { advance_ns(ms * 1'000'000LL); }
 long long now_ns();               // virtual time since harness epoch
 inline long long now_s() { return now_ns() / 1'000'000'000LL; }
+void set_autostep_ns(long long step_ns);  // every clock read advances virtual time by this much (0 = frozen between explicit advances)
 void use_real(bool on);           // fall through to the real clocks (socket-heavy drivers)
 inline std::chrono::steady_clock::time_point steady_at_s(long long s) {
     return std::chrono::steady_clock::time_point(std::chrono::nanoseconds(kSteadyEpochNs + s * 1'000'000'000LL));
